@@ -217,6 +217,19 @@ def ref(self, target):
 ''', "True exactly when the volatility of (current - target) weights over the UNION of held and target names exceeds the cap; False on NaN"),
 }
 
+# the same definitions written with pandas' label-aligned arithmetic (a name missing on one side counts as zero there)
+ALT_REFS = {
+    "PTE_Rebalance": [REFS["PTE_Rebalance"][0].replace('''    weights = pd.Series(np.zeros(len(cols)), index=cols)
+    for c in cols:
+        if c in current_weights:
+            weights[c] = current_weights[c]
+        if c in target_weights:
+            weights[c] -= target_weights[c]
+''', '''    weights = current_weights.reindex(cols, fill_value=0.0) - target_weights.reindex(cols, fill_value=0.0)
+''')],
+}
+assert "reindex" in ALT_REFS["PTE_Rebalance"][0]
+
 STATE_ATTRS = {
     ("RunAfterDays", "days"): "the countdown is the parameter",
     ("RunOnce", "has_run"): "one-shot flag",
@@ -274,7 +287,7 @@ def run(chk):
                 "of the configuration object through temp['weights'].")
     chk.assume("everything ffn / sklearn compute (non-negativity, sums, risk relations) is third-party numerics and is not decided")
     for cls, (src, what) in REFS.items():
-        check_equiv(chk, "C15.R1", ALGOS, cls, "__call__", src, "documented-weights", "%s: %s" % (cls, what), limit=16)
+        check_equiv(chk, "C15.R1", ALGOS, cls, "__call__", src, "documented-weights", "%s: %s" % (cls, what), limit=16, alt_refs=ALT_REFS.get(cls, ()))
     immutability(chk)
     core_rules.fresh_read_rules(chk, "C15")
     # what the weighting algos read: named data exactly as supplied (WeighTarget relies on "no row at now"), a dynamic child's own tables, aggregated positions (PTE_Rebalance)
@@ -283,4 +296,4 @@ def run(chk):
     from .c18 import REFS as REPORT_REFS
     for mod, cls, name, src, what in REPORT_REFS:
         if (cls, name) == ("StrategyBase", "positions"):
-            check_equiv(chk, "C18.R1", mod, cls, name, src, "report-formula", "%s.%s: %s" % (cls, name, what), no_inline=("update", "get_transactions"), limit=14)
+            check_equiv(chk, "C18.R1", mod, cls, name, src, "report-formula", "%s.%s: %s" % (cls, name, what), no_inline=("update", "get_transactions"), limit=14, ignore_refresh=True)
